@@ -1,5 +1,5 @@
 #![allow(dead_code)]
-mod vocab; mod tree; mod val; mod call; mod render; mod refsem; mod expect; mod engine; mod meta; mod agg; mod loops; mod history;
+mod vocab; mod tree; mod val; mod call; mod render; mod refsem; mod expect; mod engine; mod meta; mod agg; mod loops; mod history; mod conv;
 
 use engine::*;
 use serde_json::{json, Value};
@@ -227,6 +227,8 @@ fn main() {
             "selftest" => run_selftest(&job),
             "agg" => run_agg(&job),
             "corpus" => run_corpus(&job),
+            "conv" => { let mut out = open_out(&job, profile_name()); conv::run_conv(&mut out, job["seed"].as_u64().unwrap_or(1), job["random"].as_u64().unwrap_or(100000)); out.heartbeat(u64::MAX); write_stats(&job, &mut out, true); }
+            "literals" => { let mut out = open_out(&job, profile_name()); conv::run_literals(&mut out, job["seed"].as_u64().unwrap_or(1), job["random"].as_u64().unwrap_or(2000), job["maxlen"].as_u64().unwrap_or(5) as usize); out.heartbeat(u64::MAX); write_stats(&job, &mut out, true); }
             "history" => {
                 let mut out = open_out(&job, profile_name());
                 history::run(&mut out, job["seed"].as_u64().unwrap_or(1), job["n_seq"].as_u64().unwrap_or(1000) as usize, job["n_par"].as_u64().unwrap_or(1600) as usize, job["threads"].as_u64().unwrap_or(16) as usize);
